@@ -8,7 +8,7 @@ mkdir -p /tmp/sc
 git -C /repo worktree add -q --detach "$wt" HEAD || exit 2
 git -C "$wt" apply "/verif/seeded/$s/patch.diff" || { git -C /repo worktree remove --force "$wt"; exit 2; }
 for p in "$@"; do
-  (cd /verif && PYTHONPATH="$wt/src" VERIF_PYGQL_SRC="$wt/src" VERIF_EVIDENCE_DIR="/tmp/sc/ev.$$" bin/check "$p" --tier "$tier" 2>&1 | grep -E "^(VIOLATION|violation-bucket|HARNESS|harness|C[0-9]+ tier)" | cut -c1-260 | head -8)
+  (cd /verif && PYTHONPATH="$wt/src" VERIF_PYGQL_SRC="$wt/src" VERIF_EVIDENCE_DIR="/tmp/sc/ev.$$" VERIF_FAILURES_DIR="/tmp/sc/fail.$$" bin/check "$p" --tier "$tier" 2>&1 | grep -E "^(VIOLATION|violation-bucket|HARNESS|harness|C[0-9]+ tier)" | cut -c1-260 | head -8)
 done
 git -C /repo worktree remove --force "$wt"
-rm -rf "/tmp/sc/ev.$$"
+rm -rf "/tmp/sc/ev.$$" "/tmp/sc/fail.$$"
